@@ -545,15 +545,27 @@ static int Slice_Cmp(var self, var obj) {
   return cmp(s->range, o->range);
 }
 
+static size_t Slice_Len(var self);
+
+/*
+** The position of the cursor in the underlying iterable is kept in the
+** Int of the slice's own Range, exactly as a Range keeps its position,
+** so that iteration stops at the bounds and never steps past an end.
+*/
+
 static var Slice_Iter_Init(var self) {
   struct Slice* s = self;
   struct Range* r = s->range;
+  struct Int* p = r->value;
+  
+  if (Slice_Len(self) is 0) { return Terminal; }
   
   if (r->step > 0) {
     var curr = iter_init(s->iter);
     for(int64_t i = 0; i < r->start; i++) {
       curr = iter_next(s->iter, curr);
     }
+    p->val = r->start;
     return curr;
   }
   
@@ -562,6 +574,7 @@ static var Slice_Iter_Init(var self) {
     for (int64_t i = 0; i < (int64_t)len(s->iter)-r->stop; i++) {
       curr = iter_prev(s->iter, curr);
     }
+    p->val = r->stop-1;
     return curr;
   }
 
@@ -571,14 +584,19 @@ static var Slice_Iter_Init(var self) {
 static var Slice_Iter_Next(var self, var curr) {
   struct Slice* s = self;
   struct Range* r = s->range;
+  struct Int* p = r->value;
   
   if (r->step > 0) {
+    if (p->val + r->step >= r->stop) { return Terminal; }
+    p->val += r->step;
     for (int64_t i = 0; i < r->step; i++) {
       curr = iter_next(s->iter, curr);
     }
   }
   
   if (r->step < 0) {
+    if (p->val + r->step < r->start) { return Terminal; }
+    p->val += r->step;
     for (int64_t i = 0; i < -r->step; i++) {
       curr = iter_prev(s->iter, curr);
     }
@@ -595,18 +613,24 @@ static var Slice_Iter_Type(var self) {
 static var Slice_Iter_Last(var self) {
   struct Slice* s = self;
   struct Range* r = s->range;
+  struct Int* p = r->value;
+  int64_t n = (int64_t)Slice_Len(self);
+  
+  if (n is 0) { return Terminal; }
   
   if (r->step > 0) {
+    p->val = r->start + (n-1) * r->step;
     var curr = iter_last(s->iter);
-    for(int64_t i = 0; i < (int64_t)len(s->iter)-r->stop; i++) {
+    for(int64_t i = 0; i < (int64_t)len(s->iter)-1-p->val; i++) {
       curr = iter_prev(s->iter, curr);
     }
     return curr;
   }
   
   if (r->step < 0) {
+    p->val = r->stop-1 + (n-1) * r->step;
     var curr = iter_init(s->iter);
-    for(int64_t i = 0; i < r->start; i++) {
+    for(int64_t i = 0; i < p->val; i++) {
       curr = iter_next(s->iter, curr);
     }
     return curr;
@@ -618,14 +642,19 @@ static var Slice_Iter_Last(var self) {
 static var Slice_Iter_Prev(var self, var curr) {
   struct Slice* s = self;
   struct Range* r = s->range;
+  struct Int* p = r->value;
   
   if (r->step > 0) {
+    if (p->val - r->step < r->start) { return Terminal; }
+    p->val -= r->step;
     for (int64_t i = 0; i < r->step; i++) {
       curr = iter_prev(s->iter, curr);
     }
   }
   
   if (r->step < 0) {
+    if (p->val - r->step >= r->stop) { return Terminal; }
+    p->val -= r->step;
     for (int64_t i = 0; i < -r->step; i++) {
       curr = iter_next(s->iter, curr);
     }
